@@ -223,10 +223,10 @@ Theorem numeric_direct_degenerate : forall p (f : R -> R),
 Proof. exact numeric_direct_degenerate_lemma. Qed.
 Print Assumptions numeric_direct_degenerate.
 
-(* --- non-vacuity: the hypotheses hold for the default Antarctic ice and a 45 degree ray ------ *)
+(* --- non-vacuity: the hypotheses hold for the default Antarctic ice and a 30 degree ray ------ *)
 Theorem hypotheses_satisfiable :
   good example_ice /\ wf example_ice /\
-  SPath_beta_tolerance < SPath_beta example_path < nzs example_ice (-100) /\
+  SPath_beta_tolerance < SPath_beta example_path < nzs example_ice 0 /\
   -1 <= snell_arg example_path (SPath_z1 example_path) <= 1.
 Proof.
   destruct example_good as [Hg Hw]. destruct example_beta_in_range as [Hb Hs].
